@@ -647,9 +647,14 @@ func (sp *Specs) parseFile(pkg string, lines []string) {
 		}
 		switch word {
 		case "props":
+			// tags the contracts that FOLLOW (an earlier version also re-tagged the contract just before the line,
+			// which silently moved the last contract of every section to the next section's properties)
 			curProps = strings.Fields(strings.ReplaceAll(rest, ",", " "))
+			cur = nil
+		case "also":
+			// also C14 C08: further properties whose check verifies this one contract
 			if cur != nil {
-				cur.Props = curProps
+				cur.Props = append(append([]string{}, cur.Props...), strings.Fields(strings.ReplaceAll(rest, ",", " "))...)
 			}
 		case "func":
 			cur = parseFuncHeader(rest, pkg)
@@ -1049,7 +1054,7 @@ func splitTop(s string) []string {
 }
 
 var traceVocab = map[string]bool{"ncalls": true, "called": true, "arg1": true, "arg2": true, "arg3": true, "arg4": true, "arg5": true, "arg6": true,
-	"result": true, "result2": true, "resultb": true, "resultok": true, "nvarargs": true, "sliceArg": true, "sliceRes": true}
+	"result": true, "result2": true, "resultb": true, "resultok": true, "nvarargs": true, "sliceArg": true, "sliceArg2": true, "sliceRes": true, "visited": true}
 
 // mentionsTrace: the expression speaks about the ghost call log of the activation it belongs to. Such a
 // clause is an obligation of that function only; it must never be assumed at a call site (the caller has
